@@ -347,6 +347,7 @@ def run(ctx, P):
     r2.evicted_addr_names_are_record_names(ctx, P, "C05g")
     r2.expiry_only_brought_forward(ctx, P, "C05h")
     r2.srv_expiry_reported_for_every_listing(ctx, P, "C05i")
+    r2.events_are_lossless(ctx, P, "C05j")
     clause_f(ctx, P)
     clause_ab(ctx, P)
     clause_c(ctx, P)
